@@ -35,8 +35,15 @@ func (w *slowWriter) Write(b []byte) (int, error) {
 func RunHistory(h []Action, noformat bool) []byte { return RunHistoryW(h, noformat, false) }
 
 // RunHistoryW: with slow = true every File.Render writes into a slowWriter.
-func RunHistoryW(h []Action, noformat bool, slow bool) []byte {
+func RunHistoryW(h []Action, noformat bool, slow bool) (res []byte) {
 	var out bytes.Buffer
+	defer func() {
+		// a DSL call that panics while the trees are built: the history's output is "panic" (and what was rendered before)
+		if p := recover(); p != nil {
+			out.WriteString("panic while building\n")
+			res = out.Bytes()
+		}
+	}()
 	f := newFile(h[0], noformat)
 	b := NewBuilder()
 	for _, a := range h[1:] {
